@@ -35,6 +35,8 @@ CLASSES = [
     "opt_step_size", "opt_tolerance", "opt_gpu", "opt_sparse_unknown", "opt_sparse_umfpack", "opt_sparse_pardiso", "opt_sparse_cupy",
     "terminal_inside_film", "terminal_outside_film", "seed_other_device", "seed_other_device_shared_mesh", "seed_device_modified_in_place", "A_wrong_shape_1col", "A_wrong_shape_flat", "A_wrong_length",
     "A_plain_callable_1col", "A_plain_callable_flat", "A_plain_callable_wrong_length", "A_plain_callable_transposed", "unbalanced_const_small_current",
+    "late_opt_dt", "late_opt_terminal_psi", "late_opt_multiplier_high", "late_opt_drag_zero", "late_opt_sparse_unknown",
+    "terminal_tiny_on_vertex", "seed_device_without_terminals", "seed_device_first_terminal_only", "seed_device_fewer_holes",
     "polygon_self_intersecting", "polygon_two_points", "polygon_bad_shape", "film_unnamed", "hole_unnamed", "hole_duplicate_names",
     "terminal_duplicate_names", "terminal_unnamed", "probe_outside_film", "probe_in_hole", "probe_bad_shape",
 ]
@@ -52,6 +54,8 @@ def gen_cases(tier, seed):
                 mags = [1.0, 1e-2, 1e-4, 1e-6]
             if cls == "unbalanced_const_small_current":
                 mags = [1e-2, 1e-4, 1e-6]
+            if cls == "terminal_tiny_on_vertex":
+                mags = [0.1, 1e-2, 1e-6]
             if cls.startswith("epsilon"):
                 mags = [1.0, 1e-3, 1e-6]
             for mag in mags:
@@ -61,6 +65,8 @@ def gen_cases(tier, seed):
                                          probes=2, size="tiny", smooth=0)
                     if cls in ("probe_in_hole", "hole_unnamed") and not dev["holes"]:
                         dev = zoo.gen_device(rng, n_terminals=nt, n_holes=1, probes=2, size="tiny", smooth=0)
+                    if cls == "seed_device_fewer_holes":
+                        dev = zoo.gen_device(rng, n_terminals=0, n_holes=2, probes=0, size="small", smooth=0, film_kind="box")
                     if cls == "hole_duplicate_names":
                         dev = zoo.gen_device(rng, n_terminals=0, n_holes=2, probes=0, size="small", smooth=0, film_kind="box")
                     cases.append({"cls": cls, "mag": mag, "out": out, "device": dev, "seed": int(rng.integers(1 << 30)), "cost": 2})
@@ -169,8 +175,27 @@ def run_case(spec):
                     dspec["terminals"][0].update(center=[0.0, 0.0], w=0.05 * dspec["film"]["w"], h=0.05 * dspec["film"]["h"])
                 elif cls == "terminal_outside_film":
                     dspec["terminals"][0]["center"] = [dspec["film"]["w"] * 3, 0.0]
+                elif cls == "terminal_tiny_on_vertex":
+                    # a terminal much smaller than one boundary edge, sitting on a single vertex of the film outline:
+                    # it contains a boundary site but covers no boundary length
+                    fp = zoo.build_polygon(dspec["film"], "film").points[:-1]
+                    j = int(rng.integers(len(fp)))
+                    dd = np.linalg.norm(fp - fp[j], axis=1)
+                    spacing = float(dd[dd > 1e-9 * dd.max()].min())
+                    dspec["holes"] = []
+                    dspec["terminals"][0] = {"kind": "box", "w": mag * spacing, "h": mag * spacing, "center": [float(fp[j][0]), float(fp[j][1])], "points": 8, "name": dspec["terminals"][0]["name"]}
                 device = zoo.build_device(dspec)
                 stage = "solve"
+                if cls == "terminal_tiny_on_vertex":
+                    # premise: the terminal covers no boundary edge of the mesh actually generated (edge centres, own computation)
+                    em_ = device.mesh.edge_mesh
+                    xi_ = device.layer.coherence_length
+                    bc = xi_ * em_.centers[em_.boundary_edge_indices]
+                    t0 = dspec["terminals"][0]
+                    inside = (np.abs(bc[:, 0] - t0["center"][0]) <= t0["w"] / 2) & (np.abs(bc[:, 1] - t0["center"][1]) <= t0["h"] / 2)
+                    if inside.any():
+                        shutil.rmtree(workdir, ignore_errors=True)
+                        return {"violations": [], "counters": {"premise_not_met": 1}, "classes": ["premise_not_met/" + cls], "nontrivial": False}
                 if cls == "unbalanced_const":
                     k = names[int(rng.integers(len(names)))]
                     tc[k] = tc[k] * (1 + mag) if tc[k] else mag
@@ -207,6 +232,10 @@ def run_case(spec):
                     eps = _make_eps_novec(1.0 + mag, x0)
                 elif cls == "epsilon_time":
                     eps = _make_eps_time(1.0 + mag)
+                elif cls.startswith("late_opt_"):
+                    late = {"late_opt_dt": dict(dt_init=0.1, dt_max=0.05), "late_opt_terminal_psi": dict(terminal_psi=1.5),
+                            "late_opt_multiplier_high": dict(adaptive_time_step_multiplier=1.5), "late_opt_drag_zero": dict(include_screening=True, screening_step_drag=0.0),
+                            "late_opt_sparse_unknown": dict(sparse_solver="nosuchsolver")}[cls]
                 elif cls == "opt_dt":
                     o.update(dt_init=0.1, dt_max=0.05)
                 elif cls == "opt_terminal_psi":
@@ -259,6 +288,22 @@ def run_case(spec):
                     tm.tempdirs.clear(); tm.handler_paths.clear(); tm.stages.clear()
                     rec.counts.clear()
                     before_tmp = set(os.listdir(tempfile.gettempdir()))
+                elif cls in ("seed_device_without_terminals", "seed_device_first_terminal_only", "seed_device_fewer_holes"):
+                    # the seed's device has a strict subset (a name-sorted prefix) of the terminals / holes
+                    other = copy.deepcopy(dspec)
+                    if cls == "seed_device_without_terminals":
+                        other["terminals"] = []
+                    elif cls == "seed_device_first_terminal_only":
+                        other["terminals"] = sorted(other["terminals"], key=lambda t: t["name"])[:1]
+                    else:
+                        other["holes"] = sorted(other["holes"], key=lambda h: h["name"])[:1]
+                    other["probes"] = None
+                    odev = zoo.build_device(other)
+                    so = sim.build_options(dict(o), output_file=None)
+                    seed_solution = tdgl.solve(odev, so, applied_vector_potential=0.05)
+                    tm.tempdirs.clear(); tm.handler_paths.clear(); tm.stages.clear()
+                    rec.counts.clear()
+                    before_tmp = set(os.listdir(tempfile.gettempdir()))
                 elif cls in ("seed_other_device_shared_mesh", "seed_device_modified_in_place"):
                     # a different device derived without re-meshing: copy (shares the Mesh object) with another layer / probes
                     so = sim.build_options(dict(o), output_file=None)
@@ -279,8 +324,16 @@ def run_case(spec):
                     rec.counts.clear()
                     before_tmp = set(os.listdir(tempfile.gettempdir()))
                 opts = sim.build_options(o, output_file=path)
-                submitted = True
-                tdgl.solve(device, opts, applied_vector_potential=avp, terminal_currents=tc, disorder_epsilon=eps, seed_solution=seed_solution)
+                if cls.startswith("late_opt_"):
+                    # the solver object is built from consistent options; the SAME options object is edited before solve()
+                    solver = tdgl.TDGLSolver(device, opts, applied_vector_potential=avp, terminal_currents=tc, disorder_epsilon=eps)
+                    for k_, v_ in late.items():
+                        setattr(opts, k_, v_)
+                    submitted = True
+                    solver.solve()
+                else:
+                    submitted = True
+                    tdgl.solve(device, opts, applied_vector_potential=avp, terminal_currents=tc, disorder_epsilon=eps, seed_solution=seed_solution)
     except ImportError:
         raise
     except Exception as exc:  # the expected outcome
